@@ -343,7 +343,9 @@ PROPS["C03"] = _loop("overlap",
 PROPS["C04"] = _loop("fifo",
     "C04_queue_is_history (executed ++ batch ++ queue = accepted, in every reachable state, across Stop/Start/Run/Terminate), C04_executed_prefix, "
     "C04_executed_once, C04_refused_never_executed, C04_accept_iff_not_terminated, C04_no_lost_wakeup / C04_blocked_with_work_has_waker (a loop "
-    "blocked in select with queued work always has a waker on its way), C04_terminate_runs_all_accepted",
+    "blocked in select with queued work always has a waker on its way), C04_terminate_runs_all_accepted; progress form: C04_head_progress "
+    "(every run-thread step other than serving a timer job, and every delivered wake-up, strictly decreases a lexicographic measure of a "
+    "queued function until it has run or the loop is leaving), C04_other_threads_keep, C04_blocked_is_woken, C04_measure_well_founded",
     _LOOP_RULE % ("", ""), ["SpecFail3", "SpecFail8", "Implaccepted-function-left-waiting", "Implstuck"],
     ["submission ids are pairwise distinct (one per call)"])
 PROPS["C05"] = _loop("timers",
